@@ -252,7 +252,33 @@ def run_transport(framing, name, data, ka):
     return vio, res
 
 
+def cross_command_stage(rep):
+    """The same byte strings presented to DIFFERENT commands in one process, in both orders and twice: a verdict
+    must depend on nothing but (command, bytes) - in particular not on what was validated before."""
+    n = 0
+    for framing in ('rtu', 'tcp', 'aa55'):
+        specs = specs_for(framing, 'quick')[:12] if framing != 'aa55' else specs_for(framing, 'quick')
+        cmds = [make_cmd(framing, sp) for sp in specs]
+        frames = [canonical(framing, sp) for sp in specs]
+        for rnd in range(2):
+            order = list(range(len(specs))) if rnd == 0 else list(range(len(specs)))[::-1]
+            for i in order:
+                for j in order:
+                    vio = []
+                    o = check_one(cmds[i][0], framing, cmds[i][1], frames[j], vio, specs[i], 'cross-command')
+                    n += 1
+                    want_accept = wire.classify_response(framing, cmds[i][1], frames[j]) == 'wellformed'
+                    if i == j and o != 'accept':
+                        rep.add(f'own-answer-accepted-after-others/{framing}/{specs[i][0]}', 'verdict depends on earlier validations',
+                                dict(part='E', framing=framing, spec=list(specs[i]), data=frames[j].hex()), dict(outcome=o, round=rnd))
+                    for key, clause, sp, data, cause, gen in vio:
+                        rep.add(key, clause, dict(part='E', framing=framing, spec=list(sp), data=data.hex()),
+                                dict(cause=cause, generator=gen, note='answer to another command presented in the same process'))
+    return n
+
+
 def run(tier, seed, rep):
+    ncross = cross_command_stage(rep)
     jobs = []
     for framing in ('rtu', 'tcp', 'aa55'):
         specs = specs_for(framing, tier)
@@ -288,7 +314,7 @@ def run(tier, seed, rep):
                 for clause, cause in vio:
                     rep.add(f'{clause}/{framing}/{name}', clause,
                             dict(part='K', framing=framing, name=name, data=data.hex(), ka=ka), dict(cause=cause))
-    cov = dict(evaluations=total + nt, distinct_nontrivial=nontriv,
+    cov = dict(evaluations=total + nt + ncross, distinct_nontrivial=nontriv, cross_command_evaluations=ncross,
                rule='strings = every prefix + every single-bit flip of every canonical frame, field-grammar product '
                     '(header x unit x function x byte count x bytes present x checksum variant x trailing; echoed '
                     'register/value variants for writes; AA55 length/type/checksum variants), all strings of length<=2 '
